@@ -1,12 +1,24 @@
 (* C16 oracle.  A file is given as its lines (hex, without newline).
    trim <n> line...            -> the lines after trim_file
    header <prefix> <n> line... -> the lines after fix_header
-   sort <n> line...            -> the lines after isort *)
+   sort <n> line...            -> the lines after isort
+   cvsid <plain|mk|plist> <n> line...  -> ok <n> line... | panic        (check_cvsid)
+   plist <n> line...                   -> ok <n> line... | panic | fuel (plist_pass)
+   gzoffered <line>                    -> 0 | 1                          (gz_offered)
+   usedby <name> <n> line...           -> ok <n> line... | panic        (used_by) *)
 let out ls = string_of_int (List.length ls) ^ String.concat "" (List.map (fun l -> " " ^ hex_of_bytes l) ls)
 let handle (args : string list) : string =
   match args with
   | "trim" :: _ :: ls -> out (trim_file (List.map bytes_of_hex ls))
   | "header" :: p :: _ :: ls -> out (fix_header (bytes_of_hex p) (List.map bytes_of_hex ls))
   | "sort" :: _ :: ls -> out (isort (List.map bytes_of_hex ls))
+  | "cvsid" :: k :: _ :: ls ->
+    let k = (match k with "mk" -> IdMk | "plist" -> IdPlist | _ -> IdPlain) in
+    (match check_cvsid k (List.map bytes_of_hex ls) with Some o -> "ok " ^ out o | None -> "panic")
+  | "plist" :: _ :: ls ->
+    (match plist_pass (List.map bytes_of_hex ls) with POk o -> "ok " ^ out o | PPanic -> "panic" | PFuel -> "fuel")
+  | "gzoffered" :: [l] -> if gz_offered (bytes_of_hex l) then "1" else "0"
+  | "usedby" :: name :: _ :: ls ->
+    (match used_by (bytes_of_hex name) (List.map bytes_of_hex ls) with Some o -> "ok " ^ out o | None -> "panic")
   | _ -> "ERR:bad request"
 let () = serve handle
